@@ -105,7 +105,7 @@ def _region_body(fn, *a):
 # generation
 
 OPS = ("jacrev_log", "jacrev_act0", "jacrev_act1", "jacrev_exp", "jacrev_chain", "with_vmap", "with_jacfwd",
-       "with_jacrev", "nested_vmap", "reuse", "plain", "api")
+       "with_jacrev", "nested_vmap", "reuse", "plain", "api", "api2")
 
 
 def generate(seed, tier, prop="C06"):
@@ -115,7 +115,7 @@ def generate(seed, tier, prop="C06"):
     ro = rng.stream(seed, "ops")
     n = ro.randint(1, 8)
     w = {k: ro.choice([0, 1, 2]) for k in OPS}
-    w["plain"] = min(w["plain"], 1); w["api"] = min(w["api"], 1)
+    w["plain"] = min(w["plain"], 1); w["api"] = min(w["api"], 1); w["api2"] = min(w["api2"], 1)
     names = [k for k in OPS if w[k]] or ["jacrev_log"]
     pf = ro.choice([0.3, 0.6, 0.9])
     ops = []
@@ -125,7 +125,7 @@ def generate(seed, tier, prop="C06"):
             op["depth"] = ro.choice([2, 3])
         if op["op"] == "reuse":
             op["times"] = ro.randint(2, 5)
-        if op["op"] not in ("plain", "api") and ro.random() < pf:
+        if op["op"] not in ("plain", "api", "api2") and ro.random() < pf:
             x = ro.random()
             if x < 0.3:
                 op["fault"] = {"kind": "user-raise", "exc": ro.choice(sorted(EXC)), "at": ro.choice([1, 1, 1, 2, 3])}
@@ -376,6 +376,64 @@ def _api_monitor(seed, i, fam, n, out):
                                 "tensor arguments" % (name, fam, n), i, "mutation:" + name)
 
 
+def _api_monitor2(seed, i, fam, n, out):
+    """Second monitor list: conversion, geometry, spline, metric and linear-algebra helpers of the public API."""
+    from .optmodels import rand_grp
+    dt = torch.float64
+    g = lambda name, shape, sc=1.0: rng.randn(seed, ("m2", i, name), shape, dt, sc)
+    X = rand_grp(seed, ("m2X", i), (n,), fam, dt)
+    R3 = rand_grp(seed, ("m2R", i), (n,), "SO3", dt)
+    T = rand_grp(seed, ("m2T", i), (n,), "SE3", dt)
+    S = rand_grp(seed, ("m2S", i), (n,), "Sim3", dt)
+    Xu = pp.LieTensor(X.tensor() * 1.5, ltype=X.ltype)          # un-normalised quaternion part for quat2unit
+    traj = rand_grp(seed, ("m2traj", i), (8,), "SE3", dt)
+    traj2 = rand_grp(seed, ("m2traj2", i), (8,), "SE3", dt)
+    st1 = torch.arange(8, dtype=dt) * 0.1
+    st2 = torch.arange(8, dtype=dt) * 0.1 + 0.05
+    A = g("A", (n, 3, 3)); v = g("v", (n, 3)); w = g("w", (n, 3))
+    pts = g("pts", (12, 3)); pts2 = g("pts2", (12, 3))
+    K = torch.tensor([[300., 0, 160], [0, 300., 120], [0, 0, 1]], dtype=dt)
+    front = pts.clone(); front[:, 2] = front[:, 2].abs() + 2
+    pix = g("pix", (12, 2), 50.0); depth = g("depth", (12,)).abs() + 1
+    eul = g("eul", (n, 3), 0.5)
+    M3 = R3.matrix(); M4 = T.matrix(); MS = S.matrix()
+    calls = [
+        ("quat2unit", lambda: pp.quat2unit(Xu), [Xu]),
+        ("mat2SO3", lambda: pp.mat2SO3(M3), [M3]), ("mat2SE3", lambda: pp.mat2SE3(M4), [M4]),
+        ("mat2Sim3", lambda: pp.mat2Sim3(MS), [MS]), ("from_matrix", lambda: pp.from_matrix(M4, pp.SE3_type), [M4]),
+        ("euler2SO3", lambda: pp.euler2SO3(eul), [eul]), ("euler", lambda: R3.euler(), [R3]),
+        ("bmv", lambda: pp.bmv(A, v), [A, v]), ("bvv", lambda: pp.bvv(v, w), [v, w]), ("bvmv", lambda: pp.bvmv(v, A, w), [v, A, w]),
+        ("vec2skew", lambda: pp.vec2skew(v), [v]),
+        ("cart2homo", lambda: pp.cart2homo(pts), [pts]), ("homo2cart", lambda: pp.homo2cart(pp.cart2homo(pts)), [pts]),
+        ("point2pixel", lambda: pp.point2pixel(front, K), [front, K]), ("pixel2point", lambda: pp.pixel2point(pix, depth, K), [pix, depth, K]),
+        ("reprojerr", lambda: pp.reprojerr(front, pix, K), [front, pix, K]),
+        ("knn", lambda: pp.knn(pts, pts2, k=2), [pts, pts2]), ("svdtf", lambda: pp.svdtf(pts, pts2), [pts, pts2]),
+        ("svdstf", lambda: pp.svdstf(pts, pts2), [pts, pts2]),
+        ("nbr_filter", lambda: pp.nbr_filter(pts, 1, 2.0), [pts]), ("voxel_filter", lambda: pp.voxel_filter(pts, [0.5, 0.5, 0.5]), [pts]),
+        ("knn_filter", lambda: pp.knn_filter(pts, 2), [pts]), ("random_filter", lambda: pp.random_filter(pts, 4), [pts]),
+        ("chspline", lambda: pp.chspline(pts, 0.25), [pts]), ("bspline", lambda: pp.bspline(traj, 0.25), [traj]),
+        ("geodesic_loss", lambda: pp.geodesic_loss(traj, traj2), [traj, traj2]),
+        ("ape", lambda: pp.metric.ape(st1, traj, st1, traj2), [st1, traj, traj2]),
+        ("ape:offset", lambda: pp.metric.ape(st1, traj, st2, traj2, offset=-0.05, diff=0.02), [st1, st2, traj, traj2]),
+        ("ape:align", lambda: pp.metric.ape(st1, traj, st1, traj2, align=True, scale=True), [st1, traj, traj2]),
+        ("rpe", lambda: pp.metric.rpe(st1, traj, st1, traj2), [st1, traj, traj2]),
+        ("rpe:offset", lambda: pp.metric.rpe(st1, traj, st2, traj2, offset=-0.05, diff=0.02), [st1, st2, traj, traj2]),
+        ("ICP", lambda: pp.module.ICP(stepper=pp.utils.ReduceToBason(steps=3))(pts.unsqueeze(0), pts2.unsqueeze(0)), [pts, pts2]),
+    ]
+    for name, fn, args in calls:
+        before = [t.detach().clone() for t in args]
+        try:
+            fn()
+        except Exception:
+            out.probe("monitor2:call-failed:" + name)
+            continue            # whether the call works at all is other properties' business
+        out.probe("monitor:api-call")
+        for b, t in zip(before, args):
+            if not torch.equal(b, t.detach()):
+                raise Violation("C06.mutation", "public function '%s' changed the values of one of its tensor arguments" % name,
+                                i, "mutation:" + name)
+
+
 def _check_after(out, o, what):
     left = _patch_state()
     if left:
@@ -449,6 +507,11 @@ def execute(plan, prop, out, tr):
     for o in plan["ops"]:
         i = o["id"]
         BOMB.count, BOMB.at, BOMB.exc = 0, None, None
+        if o["op"] == "api2":
+            _api_monitor2(s, i, fam, n, out)
+            _check_after(out, o, "api monitor 2")
+            out.ops += 1
+            continue
         if o["op"] == "api":
             _api_monitor(s, i, fam, n, out)
             _check_after(out, o, "api monitor")
